@@ -579,7 +579,15 @@ class Monitors:
         got = {}
         for r in body:
             if len(r) >= 3:
-                got[(r[0], r[1])] = int(r[2])
+                try:
+                    c = int(r[2])
+                except ValueError:
+                    self.violate('C13', 'rare-report-malformed', {'row': r, 'threshold': thr})
+                    return
+                if (r[0], r[1]) in got:
+                    self.violate('C13', 'rare-report-duplicate-row', {'row': r, 'threshold': thr})
+                    return
+                got[(r[0], r[1])] = c
         if got != exp:
             diff = sorted(set(got.items()) ^ set(exp.items()), key=repr)[:6]
             self.violate('C13', 'rare-report', {'threshold': thr, 'difference': diff, 'written': len(got), 'exact': len(exp)})
